@@ -9,6 +9,20 @@ ALL = ["C%02d" % i for i in range(1, 21)]
 
 CHECKS = {
     # id: (category, technique, text, note, design_ref)
+    "C01": ("exploration",
+            "generated programs (typed grammar over the documented vform language, Hypothesis) compiled through "
+            "generate -> Cython -> gcc -> import -> instantiate -> assemble and compared entrywise with an independent "
+            "interpreter summed over own Gauss nodes (differential testing of the whole compiler)",
+            "Batches of generated forms (dims 1-3, arity 1-2, scalar/vector and non-square component counts, two spaces, "
+            "dx/ds/boundary/gw, physical and parametric derivatives up to order 2, spline and callable input fields, "
+            "parameters, x/n/jac, algebra, abs/sqrt/exp/log/sin/cos/tan) are compiled in crash-isolated workers with private "
+            "caches (compile_vforms batches, single compile_vform, string front-end) and every entry of the assembled "
+            "matrix/vector plus selected entry() calls are compared with the reference Gauss sum on generated open knot "
+            "vectors (mixed degrees, repeated knots) and B-spline/NURBS geometries. Every accepted form must build, load "
+            "and assemble. The program space is sampled, not covered.",
+            "Trusted: vp/ref/forms.py (jets, chain rule), vp/ref/geo.py, vp/ref/bspl.py, numpy leggauss. Boundary normals "
+            "assume orientation-preserving maps (documented precondition).",
+            "DESIGN.md section 2, C01"),
     "C02": ("exploration",
             "Hypothesis-generated knot vectors/points/derivative orders + exhaustive breakpoint sweep, compared with "
             "Cox-de Boor in exact rational arithmetic (condition-aware rounding bound)",
